@@ -54,7 +54,8 @@ struct C29 : drv::Harness
 		std::set<int64_t> g;
 		int n = (int)rng.range(0, 7);
 		for (int i = 0; i < n; ++i) g.insert(rng.chance(0.8) ? rng.range(0, std::min<int64_t>(r + 2, 9)) : rng.pick(std::vector<int64_t>{ 1022, 1023, 1024, 1025, 1026, 1099, 1100, 1101 }));
-		for (auto k : g) p.ops.push_back(Op("gen", { k }));
+		// (file store) a generation may be incomplete: 1 = data file only, 2 = index file only (interrupted earlier purge, removed file)
+		for (auto k : g) p.ops.push_back(Op("gen", { k, rng.chance(0.7) ? 0 : (int64_t)rng.range(1, 2) }));
 		if (rng.chance(0.5)) p.ops.push_back(Op("decoy", { rng.range(0, 3) }));
 		int m = (int)rng.range(0, thorough ? 4 : 2);
 		for (int i = 0; i < m; ++i) p.ops.push_back(Op(rng.chance(0.6) ? "rotate_force" : "rotate"));
@@ -87,8 +88,10 @@ struct C29 : drv::Harness
 			if (op.k == "gen")
 			{
 				unsigned k = (unsigned)op.arg(0);
-				put_file(gen[k], "generation " + std::to_string(k) + " of " + base + "\n");
-				if (persister) put_file(gen_idx[k], "index " + std::to_string(k));
+				const int part = persister ? (int)op.arg(1) : 0;
+				if (part != 2) put_file(gen[k], "generation " + std::to_string(k) + " of " + base + "\n");
+				if (persister && part != 1) put_file(gen_idx[k], "index " + std::to_string(k));
+				if (part) sim::count("incomplete_generation");
 			}
 			else if (op.k == "decoy")
 			{
